@@ -55,5 +55,19 @@ def cases3() -> List[Dict[str, Any]]:
         A(case(f"module-reexported-while-analysed-{k}", {"pkg/__init__.py": "", "pkg/x.py": "import y\nclass X: pass\n", "y.py": "from pkg import x\n__all__ = ['x']\n"}, roots=roots))
     A(case("root-module-named-index", {"index.py": "def f():\n    'doc'\nclass K: pass\n"}, roots=["index.py"]))
     A(case("setter-named-like-nested-class", {"pk/m.py": "class A:\n    class x: pass\n    @x.setter\n    def x(self, v): pass\n    @property\n    def y(self): pass\n    class y: pass\n"}))
+    # --- round 8
+    A(case("constructors-without-parameters", {"pk/m.py": (
+        "class Token:\n    def __init__():\n        'no self'\n    @classmethod\n    def blank() -> 'Token':\n        'factory without cls'\n"
+        "class Other:\n    def __new__():\n        pass\n    @staticmethod\n    def make() -> 'Other': pass\n    @classmethod\n    def build(*args) -> 'Other': pass\n")}))
+    A(case("type-field-for-missing-variable-inherited", {
+        "pk/m.py": (
+            "class Base:\n    \"\"\"\n    Base.\n\n    @type colour: C{str}\n    @type size: C{int}\n    \"\"\"\n    size = 1\n"
+            "class Sub(Base):\n    'sub'\n    def m(self): pass\nclass SubSub(Sub):\n    pass\n"),
+        "pk/r.py": "__docformat__ = 'restructuredtext'\nclass RBase:\n    \"\"\"\n    Base.\n\n    :type ghost: str\n    \"\"\"\nclass RSub(RBase):\n    pass\n"}))
+    for k, (plug, pub) in enumerate((("aplugin", "zpublic"), ("zplugin", "apublic"))):
+        A(case(f"class-moved-while-its-body-is-visited-{k}", {
+            "app/__init__.py": "",
+            f"app/{plug}.py": f"class Plugin:\n    'doc'\n    from app.{pub} import registry\n    def run(self): pass\nclass After:\n    pass\n",
+            f"app/{pub}.py": f"from app.{plug} import Plugin\n__all__ = ['Plugin', 'registry']\nregistry = []\n"}, roots=["app"]))
     A(case("huge-hex-integer", {"pk/m.py": "X = 0x" + "f" * 4000 + "\n'doc'\ndef f(a=0x" + "e" * 3800 + "): pass\n"}))
     return out
